@@ -29,6 +29,11 @@ ExpectedVar(v, e) ==
                        LET ridx == UnravelRM(rs, q - 1)
                        IN VarAtIdx(v, SubSeq(ridx, 1, p - 1) \o <<OneStep(e)>> \o SubSeq(ridx, p, Len(ridx)))]]
 
+\* the period the saved file actually uses (xarray writes a finer one than asked for when an integer axis needs it)
+Periods == {"seconds", "minutes", "hours", "days"}
+FilePeriod(e) == IF \E p \in Periods : HasPrefix(e.obs.ok.units, PeriodStr(p) \o Since)
+                 THEN CHOOSE p \in Periods : HasPrefix(e.obs.ok.units, PeriodStr(p) \o Since) ELSE e.period
+
 Names == {"Returned", "EmsForm", "SameInstant",
           "Saved", "UnitsEmsForm", "UnitsSameInstant", "TimeInstantsIdentical", "SameConvention", "PolygonsIdentical",
           "ValuesIdentical", "NoNewFillAttrs"}
@@ -42,11 +47,12 @@ Holds(name, ww, e) ==
             /\ ParsedSeconds(e.obs.ok, e.period) = e.sec
     [] name = "Saved" -> e.a = "SaveOpen" => Ok(e)
     [] name = "UnitsEmsForm" ->
-         Is(e, "SaveOpen") => (IsEmsForm(e.obs.ok.units, e.period) /\ ParsedFieldsValid(e.obs.ok.units, e.period))
+         Is(e, "SaveOpen") => (IsEmsForm(e.obs.ok.units, FilePeriod(e)) /\ ParsedFieldsValid(e.obs.ok.units, FilePeriod(e)))
     [] name = "UnitsSameInstant" ->
-         (Is(e, "SaveOpen") /\ IsEmsForm(e.obs.ok.units, e.period)) =>
-            /\ ParsedInstant(e.obs.ok.units, e.period) = UtcMinutes(Civil(e), e.off)
-            /\ ParsedSeconds(e.obs.ok.units, e.period) = e.sec
+         \* (the reference instant may be written in another zone than it was given in; the instant is what counts)
+         (Is(e, "SaveOpen") /\ IsEmsForm(e.obs.ok.units, FilePeriod(e))) =>
+            /\ ParsedInstant(e.obs.ok.units, FilePeriod(e)) = UtcMinutes(Civil(e), e.off)
+            /\ ParsedSeconds(e.obs.ok.units, FilePeriod(e)) = e.sec
     [] name = "TimeInstantsIdentical" -> Is(e, "SaveOpen") => e.obs.ok.times = e.intimes
     [] name = "SameConvention" -> Is(e, "SaveOpen") => e.obs.ok.conv = e.inconv
     [] name = "PolygonsIdentical" ->
@@ -70,6 +76,7 @@ SeenOf(ww, e) == {e.a, "period-" \o e.period, "style-" \o e.style}
   \cup (IF e.off = 0 THEN {"zero-offset"} ELSE {})
   \cup (IF e.a = "SaveOpen" THEN {ww.conv} ELSE {})
   \cup (IF e.a = "SaveOpen" /\ OneStep(e) >= 0 THEN {"scalar-time"} ELSE {})
+  \cup (IF e.a = "SaveOpen" /\ "coarse" \in DOMAIN e THEN {"coarse-integer-axis"} ELSE {})
   \cup (IF e.a = "Format" /\ LocalCivil(UtcMinutes(Civil(e), e.off), 0)[3] # e.civil[3] THEN {"utc-date-differs"} ELSE {})
 
 Done == t > Len(Log)
